@@ -816,7 +816,7 @@ fn g_report(rng: &mut Rng) -> Value {
             let err = if rng.chance(1, 2) {
                 Value::Null
             } else {
-                let max = if rng.chance(1, 6) { 80 } else { 12 };
+                let max = if rng.chance(1, 6) { 40 } else { 12 };
                 let t: Vec<u8> = g_text(rng, max).into_iter().filter(|b| *b != 27).collect();
                 if t == b"OK" { json!([69]) } else { json!(t) }
             };
@@ -854,7 +854,7 @@ fn g_report(rng: &mut Rng) -> Value {
             }
         }
         _ => {
-            let max = if rng.chance(1, 6) { 200 } else { 10 };
+            let max = if rng.chance(1, 6) { 60 } else { 10 };
             let t: Vec<u8> = g_text(rng, max).into_iter().filter(|b| *b != 27).collect();
             json!({"t": "paste", "text": t})
         }
